@@ -39,6 +39,11 @@ func (u *Unit) frameInit(ct *Contract, env *SpecEnv, key string) {
 				}
 			}
 		case "field":
+			if hn, ok := u.anyField(x, env); ok {
+				// any(T).f: the field f of every object of type T
+				u.frameAllowed = append(u.frameAllowed, frameEntry{heap: hn, base: Term{"*", nil}})
+				continue
+			}
 			b := env.eval(x.Args[0])
 			if _, ok := u.eng.ghostFields[x.Tok]; ok {
 				if _, isField := env.structField(b, x.Tok); !isField {
@@ -120,6 +125,9 @@ func (u *Unit) frameWrite(hn string, ref Term, lo, hi *Term, what string) {
 		if e.heap != hn {
 			continue
 		}
+		if e.base.S == "*" {
+			return
+		}
 		c := eq(ref, Term{e.base.S, ref.T})
 		if e.lo != nil && lo != nil {
 			c = and(c, le(*e.lo, *lo), le(*hi, *e.hi))
@@ -154,4 +162,55 @@ func (u *Unit) frameGhostWrite(name string) {
 	}
 	u.frameSeen[k] = true
 	u.oblige(u.frameKey, "frame", "", u.curReach, mkBool(false), "write to ghost / package variable "+name+" is covered by the modifies clause", "")
+}
+
+// anyField recognises the location  any(T).f  and returns the name of the heap of field f of struct type T.
+func (u *Unit) anyField(x *SX, env *SpecEnv) (string, bool) {
+	if x.Op != "field" || len(x.Args) != 1 || x.Args[0].Op != "call" || len(x.Args[0].Args) != 2 || x.Args[0].Args[0].Op != "ident" || x.Args[0].Args[0].Tok != "any" {
+		return "", false
+	}
+	tx := x.Args[0].Args[1]
+	pkg := env.pkg
+	tn := tx.Tok
+	if tx.Op == "field" {
+		pkg = u.eng.pkgByName[tx.Args[0].Tok]
+	}
+	if pkg == nil {
+		env.bad("any(%s): unknown package", tx)
+	}
+	obj := pkg.Pkg.Scope().Lookup(tn)
+	if obj == nil {
+		env.bad("any(%s): unknown type", tx)
+	}
+	st, ok := obj.Type().Underlying().(*types.Struct)
+	if !ok {
+		env.bad("any(%s): not a struct type", tx)
+	}
+	for i := 0; i < st.NumFields(); i++ {
+		if st.Field(i).Name() == x.Tok {
+			hn, hs, _ := u.fieldHeapName(obj.Type(), i)
+			u.eng.heapSorts[hn] = hs
+			return hn, true
+		}
+	}
+	env.bad("any(%s): no field %s", tx, x.Tok)
+	return "", false
+}
+
+// frameAnyWrite: a callee may write field heap hn of any object.
+func (u *Unit) frameAnyWrite(hn string) {
+	if !u.frameOn || u.frameOff > 0 {
+		return
+	}
+	for _, e := range u.frameAllowed {
+		if e.heap == hn && e.base.S == "*" {
+			return
+		}
+	}
+	k := "any|" + hn + "|" + u.curReach.S
+	if u.frameSeen[k] {
+		return
+	}
+	u.frameSeen[k] = true
+	u.oblige(u.frameKey, "frame", "", u.curReach, mkBool(false), "write to "+hn+" of arbitrary objects (callee modifies any(...)) is covered by the modifies clause", "")
 }
